@@ -54,6 +54,94 @@ def gen_history(rng, maxlen, mix):
     return out
 
 
+def gen_timed(rng):
+    """Histories in which the clock moves while messages are processed (harness `updt`): the same
+    report (same reference time) seen again after the clock crossed the staleness threshold; a
+    reference time in the future that the clock overtakes; the same reference time with different
+    delay/dispersion/offset.  -> list of (offset_ns, message); the message's (kind, secs, nanos) give
+    the reference time relative to offset 0."""
+    t = rng.randrange(1, 10 ** 6) * NS + rng.randrange(NS)
+    itv = rng.choice([ITV4, cfloat.encode(1.0), cfloat.encode(16.0), cfloat.encode(0.5), cfloat.encode(64.0)])
+    T = threshold(itv) * NS
+
+    def vals():
+        return cfloat.encode(rng.uniform(1e-4, 0.2)), cfloat.encode(rng.uniform(1e-6, 0.05)), cfloat.encode(rng.uniform(-0.05, 0.05))
+
+    def rep(off, d, e, o, leap, kind, a, phc=0):
+        nonlocal t
+        t += rng.choice([1, NS, 3 * NS])
+        return (off, ("r", d, e, o, leap, itv, kind, a // NS, a % NS, phc, t // NS, t % NS))
+    out, off = [], 0
+    for _ in range(rng.randrange(1, 4)):
+        pat = rng.randrange(3)
+        leap = rng.randrange(3)
+        d, e, o = vals()
+        if pat == 0:       # fresh, then the identical report once it has become stale
+            x = rng.choice([1, NS // 2, 3 * NS, T // 3 + 1])
+            a0 = max(0, T - x - off)
+            out.append(rep(off, d, e, o, leap, 0, a0))
+            off += x + rng.choice([1, 300 * 10 ** 6, NS, 5 * NS])
+            out.append(rep(off, d, e, o, leap, 0, a0))
+            if rng.random() < 0.5:
+                off += rng.choice([1, NS])
+                out.append(rep(off, d, e, o, leap, 0, a0))
+        elif pat == 1:     # reference time in the future, then overtaken by the clock
+            z = off + rng.choice([2, NS, 7 * NS])
+            out.append(rep(off, d, e, o, leap, 1, z))
+            off = z + rng.choice([1, NS // 3, 2 * NS])
+            out.append(rep(off, d, e, o, leap, 1, z))
+        else:              # same reference time, new measurement values
+            a0 = rng.randrange(0, max(1, T // 2))
+            out.append(rep(off, d, e, o, leap, 0, a0))
+            for _ in range(rng.randrange(1, 3)):
+                off += rng.choice([0, 1, NS])
+                d, e, o = vals()
+                out.append(rep(off, d, e, o, leap, 0, a0, rng.choice([0, 0, 77777])))
+        if rng.random() < 0.3:
+            off += rng.choice([0, NS])
+            out.append((off, (rng.choice(["m", "p"]), rng.randrange(2))))
+    return out
+
+
+def timed_lines(drift, th):
+    """-> (harness line `updt`, the equivalent `upd` line in which every report carries its age at
+    the instant it is processed - what the model and the oracle take)"""
+    impl = ["updt", str(drift), str(len(th))]
+    hist = []
+    for off, m in th:
+        impl += [str(off)] + [str(x) for x in m]
+        if m[0] == "r":
+            a = m[7] * NS + m[8]
+            if m[6] == 0:
+                kind, age = 0, a + off
+            elif off < a:
+                kind, age = 1, a - off
+            else:
+                kind, age = 0, off - a
+            m = m[:6] + (kind, age // NS, age % NS) + m[9:]
+        hist.append(m)
+    return " ".join(impl), line_of(drift, hist)
+
+
+def run_timed(pid, res, rng, binary, n):
+    """-> (diffs, bad) for n timed histories"""
+    cases = [timed_lines(rng.choice([0, 1000, 50000]), gen_timed(rng)) for _ in range(n)]
+    impl = c.run_lines(binary, [x[0] for x in cases])
+    model = c.run_model([x[1] for x in cases])
+    res.evaluations += len(cases)
+    diffs, bad = [], []
+    for (il, ml), i, m in zip(cases, impl, model):
+        res.count("gen:clock moves between messages")
+        res.nontriv(il)
+        if i != m:
+            diffs.append({"case": il, "equivalent_untimed": ml, "impl": i, "model": m})
+        why = judge(ml, i, pid)
+        if why:
+            bad.append({"case": il, "equivalent_untimed": ml, "impl": i, "model": m,
+                        "why": why + ["(updt: the realtime clock reads NOW + offset while each message is processed)"]})
+    return diffs, bad
+
+
 def line_of(drift, hist):
     parts = ["upd", str(drift), str(len(hist))]
     for m in hist:
@@ -197,8 +285,12 @@ def run_property(pid, res, proofs_ok, proofs_why, only=None):
         why = judge(ln, i, pid)
         if why:
             bad.append({"case": ln, "impl": i, "model": m, "why": why})
+    tbad = []
+    if only is None:
+        tdiffs, tbad = run_timed(pid, res, rng, binary, n // 3)
+        diffs += tdiffs
     res.samples = [{"case": lines[k], "impl": impl[k], "model": model[k]} for k in range(0, len(lines), max(1, len(lines) // 4))][:4]
-    res.traces_validated = len(lines) - len(diffs)
+    res.traces_validated = res.evaluations - len(diffs)
     res.oblige("correspondence:process_messages+ShmUpdater+FSM (through real ShmWriter/ShmReader) vs Updater.urun", not diffs)
     res.trusted_base.append("cfg-gated wrapper run_updater around the private process_messages / ShmUpdater; messages queued on the real mpsc channel")
     if bad:
@@ -210,6 +302,10 @@ def run_property(pid, res, proofs_ok, proofs_why, only=None):
         first = {"case": small, "impl": c.run_lines(binary, [small])[0], "model": c.run_model([small])[0],
                  "why": judge(small, c.run_lines(binary, [small])[0], pid), "shrunk_from_messages": len(parse_line(first["case"])[1])}
         res.violation({"property": pid, "kind": "history", "case": first, "others": [b["case"] for b in bad[1:4]],
+                       "predicate": "clauses of %s on the published sequence (lib/props/_updater.py judge)" % pid,
+                       "how_to_replay": "./check %s --replay <this file>" % pid})
+    elif tbad:
+        res.violation({"property": pid, "kind": "history", "case": tbad[0], "others": [b["case"] for b in tbad[1:4]],
                        "predicate": "clauses of %s on the published sequence (lib/props/_updater.py judge)" % pid,
                        "how_to_replay": "./check %s --replay <this file>" % pid})
     elif diffs:
@@ -224,10 +320,12 @@ def replay_property(pid, res, path):
     r = json.load(open(path))
     case = r.get("case", {})
     ln = case.get("case") if isinstance(case, dict) else None
+    ml = case.get("equivalent_untimed") if isinstance(case, dict) else None
     if ln is None and "first_differences" in r:
         ln = r["first_differences"][0]["case"]
+        ml = r["first_differences"][0].get("equivalent_untimed")
     out = c.run_lines(c.build_harness("debug")[0], [ln])[0]
-    m = c.run_model([ln])[0]
-    why = judge(ln, out, pid)
+    m = c.run_model([ml or ln])[0]
+    why = judge(ml or ln, out, pid)
     print("case  %s\nimpl  %s\nmodel %s\npredicate: %s" % (ln, out, m, why or "holds"))
     return 1 if (why or out != m) else 0
